@@ -389,12 +389,17 @@ class FakeClock:
 
 def list_files(tmp):
     out = []
-    for f in sorted(os.listdir(tmp)):
+    allf = []
+    for root, dirs, files in os.walk(tmp):
+        for f in files:
+            allf.append(os.path.join(root, f))
+    for full in sorted(allf):
+        f = os.path.basename(full)
         m = re.match(r"^([pq])\.(.*)records$", f)
         if not m:
             out.append({"b": "?", "rot": True, "ids": [-1]})
             continue
-        with open(os.path.join(tmp, f), "rb") as fh:
+        with open(full, "rb") as fh:
             data = fh.read()
         try:
             ids = [x[2][1] for x in rc.decode_stream(data) if x[0] == "REC"]
@@ -404,21 +409,31 @@ def list_files(tmp):
     return out
 
 
-def run_template_history(pre, ops, tmp, T):
+def run_template_history(pre, ops, tmp, T, entry="template"):
+    import shutil
     import flow.record.stream as S
     from flow.record import RecordWriter
 
-    for f in glob.glob(os.path.join(tmp, "*")):
-        os.remove(f)
+    for f in os.listdir(tmp):
+        full = os.path.join(tmp, f)
+        shutil.rmtree(full) if os.path.isdir(full) else os.remove(full)
+    # the archiver variants put their files below <dir>/YYYY/mm/dd (the day of record._generated)
+    sub = tmp if entry == "template" else os.path.join(tmp, "2020", "01", "02")
+    os.makedirs(sub, exist_ok=True)
     for p in pre:
-        with RecordWriter(os.path.join(tmp, p + ".records")) as w:
+        with RecordWriter(os.path.join(sub, p + ".records")) as w:
             w.write(T(p, 101 if p == "p" else 102, _generated=gen.GEN))
     clock = FakeClock()
     saved = S.datetime
     S.datetime = clock
     tr = [{"pre": sorted(pre), "files": list_files(tmp)}]
     try:
-        w = S.PathTemplateWriter(path_template=os.path.join(tmp, "{record.k}.records"))
+        if entry == "template":
+            w = S.PathTemplateWriter(path_template=os.path.join(tmp, "{record.k}.records"))
+        elif entry == "archiver":
+            w = S.RecordArchiver(tmp, path_template="{record.k}.records")
+        else:
+            w = RecordWriter("archive://" + tmp, path_template="{record.k}.records")
         n = 0
         for op in ops:
             ev = {"op": op[0], "raised": False, "exc": "none"}
@@ -478,6 +493,15 @@ def template_part(ctx, thorough):
             traces.append(run_template_history(pre, h, tmp, T))
             metas.append((pre, h))
             ctx.case(("template", tuple(pre), tuple(h)))
+    # the same histories through RecordArchiver and through the archive:// adapter (shorter in quick)
+    for entry in ("archiver", "archive-adapter"):
+        for pre in ([], ["p"], ["p", "q"]):
+            for h in hs:
+                if len(h) > (5 if thorough else 4):
+                    continue
+                traces.append(run_template_history(pre, h, tmp, T, entry=entry))
+                metas.append((pre, h))
+                ctx.case((entry, tuple(pre), tuple(h)))
     ctx.sample({"part": "template", "pre": metas[7][0], "history": metas[7][1], "trace": traces[7]})
     path = os.path.join(common.scratch("c17"), "ttraces.json")
     tlc.write_json(path, traces)
